@@ -230,3 +230,160 @@ Proof.
       destruct (IH ps' (pos + length d) e Hsh Hat Hwf' He) as [dps [E2 F2]]. rewrite E2.
       eexists. split; [reflexivity|]. constructor; auto.
 Qed.
+
+(* ---------------------------------------------------------------- records *)
+
+Definition xp (p : apart) : xpart := match p with APName n c => XName n c | APRaw d => XRaw d end.
+Definition xparts (a : arr) : list xpart :=
+  map xp (rd_parts (component_types (ar_cl a) (ar_ty a)) (ar_rd a)).
+
+Definition arr_wf (a : arr) : Prop :=
+  wf_name (ar_owner a) /\ length (nm_wire (ar_owner a)) <= 255 /\ (ar_ty a < 65536)%N /\
+  (ar_cl a < 65536)%N /\ (ar_ttl a < 4294967296)%N /\ (N.of_nat (length (ar_rd a)) < 65536)%N /\ wf_bytes (ar_rd a).
+Definition aq_wf (a : aq) : Prop :=
+  wf_name (aq_name a) /\ length (nm_wire (aq_name a)) <= 255 /\ (aq_ty a < 65536)%N /\ (aq_cl a < 65536)%N.
+
+Lemma parse_unc_255 rd nm len : wf_bytes rd -> parse_uncompressed_name rd false = Ok (nm, len) -> len <= 255.
+Proof.
+  intros Hwf H. apply (parse_uncompressed_iff rd false nm len Hwf) in H as [ls [[D Hw] _]].
+  destruct (decodes_nc_end _ _ _ _ _ D eq_refl) as [He _]. lia.
+Qed.
+
+Definition apart_wf (p : apart) : Prop :=
+  match p with APName n _ => wf_name n /\ length (nm_wire n) <= 255 | APRaw _ => True end.
+
+Lemma rd_parts_wf : forall cts rd, wf_bytes rd -> Forall apart_wf (rd_parts cts rd).
+Proof.
+  induction cts as [|ct rest IH]; intros rd Hwf; simpl.
+  - destruct (length rd =? 0); repeat constructor.
+  - assert (Hn : Forall apart_wf
+               match parse_uncompressed_name rd false with
+               | Ok (nm, len) => APName (labels_of_name nm) (is_comp ct) :: rd_parts rest (skipn len rd)
+               | _ => []
+               end).
+    { destruct (parse_uncompressed_name rd false) as [[nm len]|e|] eqn:E; try constructor.
+      - destruct (parse_unc_name rd nm len Hwf E) as [W1 [W2 _]]. pose proof (parse_unc_255 rd nm len Hwf E).
+        simpl. split; auto. lia.
+      - apply IH. apply wf_bytes_skipn; auto. }
+    destruct ct as [| |k]; auto.
+    destruct (length rd <? k); constructor; [exact I|]. apply IH. apply wf_bytes_skipn; auto.
+Qed.
+
+Lemma parts_wf_of ps aps : map part_abs ps = aps -> Forall apart_wf aps -> Forall part_wf ps.
+Proof.
+  intros <-. induction ps as [|[ch comp|p d] r IH]; simpl; intros H; constructor; inversion H; subst; auto.
+Qed.
+
+Lemma parts_rel_of cp ps dps : Forall (part_cp cp) ps -> Forall2 lpart_rel ps dps ->
+  Forall2 (part_rel cp) (map xp (map part_abs ps)) dps.
+Proof.
+  intros Hcp H. induction H as [|p d ps dps Hr _ IH]; simpl; [constructor|].
+  inversion Hcp as [|? ? Hc1 Hc2]; subst. constructor; auto.
+  destruct p as [ch comp|q dd]; destruct d as [n' pos c|dd']; simpl in *; try contradiction.
+  - destruct Hr as [R1 [R2 _]]. subst. auto.
+  - auto.
+Qed.
+
+Lemma slice_sub (b : bytes) a e a' e' x : slice b a e = x -> a <= a' -> a' <= e' -> e' <= e -> e <= length b ->
+  slice b a' e' = slice x (a' - a) (e' - a).
+Proof.
+  intros <- H1 H2 H3 H4. unfold slice.
+  rewrite skipn_firstn_comm. rewrite skipn_plus. replace (a + (a' - a)) with a' by lia.
+  rewrite firstn_firstn. f_equal. lia.
+Qed.
+
+Definition rrd (r : lrr) (a : arr) : Prop :=
+  rr_desc r (ar_owner a) (ar_exact a) (ar_ty a) (ar_cl a) (ar_ttl a)
+          (component_types (ar_cl a) (ar_ty a)) (ar_rd a).
+
+Lemma rr_decode b lo c h L r a : closed b lo c h L -> sdec b c L -> rr_at b L r -> rrd r a ->
+  arr_wf a -> lr_end r <= length b ->
+  exists d, rr_rel xparts a d /\ dr_pos d = nc_pos (lr_owner r) /\
+    forall n, dec_rrs (S n) b (nc_pos (lr_owner r)) =
+              match dec_rrs n b (lr_end r) with Some (rs, e') => Some (d :: rs, e') | None => None end.
+Proof.
+  intros Hc Hsd [Ho [Hf [Hle Hp]]] [D1 [D2 [D3 [D4 [D5 [D6 [D7 [D8 D9]]]]]]]] [W1 [W2 [W3 [W4 [W5 [W6 W7]]]]]] He.
+  pose proof (proj1 Ho) as Hlt.
+  rewrite <- D1 in W1, W2.
+  destruct (chunk_decode b lo c h L (lr_owner r) Hc Hsd Ho ltac:(lia) W1 W2) as [n' [E [Hr _]]].
+  set (p := nc_end (lr_owner r)) in *.
+  assert (Hrd : (N.of_nat (lr_end r - (p + 10)) < 65536)%N) by lia.
+  unfold rr_fixed in Hf. fold p in Hf.
+  assert (F1 : get16 b p = Some (lr_ty r)).
+  { apply get16_be16; [|rewrite D3; auto].
+    rewrite (slice_sub b p (p + 10) p (p + 2) _ Hf) by lia.
+    replace (p - p) with 0 by lia. replace (p + 2 - p) with 2 by lia. reflexivity. }
+  assert (F2 : get16 b (p + 2) = Some (lr_cl r)).
+  { apply get16_be16; [|rewrite D4; auto].
+    rewrite (slice_sub b p (p + 10) (p + 2) (p + 2 + 2) _ Hf) by lia.
+    replace (p + 2 - p) with 2 by lia. replace (p + 2 + 2 - p) with 4 by lia. reflexivity. }
+  assert (F3 : get32 b (p + 4) = Some (lr_ttl r)).
+  { apply get32_be32; [|rewrite D5; auto].
+    rewrite (slice_sub b p (p + 10) (p + 4) (p + 4 + 4) _ Hf) by lia.
+    replace (p + 4 - p) with 4 by lia. replace (p + 4 + 4 - p) with 8 by lia. reflexivity. }
+  assert (F4 : get16 b (p + 8) = Some (N.of_nat (lr_end r - (p + 10)))).
+  { apply get16_be16; [|lia].
+    rewrite (slice_sub b p (p + 10) (p + 8) (p + 8 + 2) _ Hf) by lia.
+    replace (p + 8 - p) with 8 by lia. replace (p + 8 + 2 - p) with 10 by lia.
+    rewrite N.mod_small by lia. reflexivity. }
+  assert (Hpw : Forall part_wf (lr_parts r)).
+  { eapply parts_wf_of; [exact D6|]. apply rd_parts_wf. exact W7. }
+  destruct (parts_decode b lo c h L Hc Hsd _ _ _ _ D8 Hp Hpw He) as [dps [Ep Fp]].
+  exists (mkDRR n' (nc_pos (lr_owner r)) (lr_ty r) (lr_cl r) (lr_ttl r) dps). split; [|split; [reflexivity|]].
+  - unfold rr_rel. simpl. rewrite <- D1, <- D2. split; [exact Hr|]. repeat split; auto.
+    unfold xparts. rewrite <- D6. apply parts_rel_of; auto. rewrite D2. exact D7.
+  - intros n. cbn [dec_rrs]. unfold dec_cname. rewrite E.
+    replace (nc_pos (lr_owner r) + (p - nc_pos (lr_owner r))) with p by lia.
+    rewrite F1, F2, F3, F4. rewrite Nat2N.id.
+    replace (p + 10 + (lr_end r - (p + 10))) with (lr_end r) by lia.
+    destruct (lr_end r <=? length b) eqn:E1; [|apply Nat.leb_gt in E1; lia].
+    rewrite layout_table, D4, D3. rewrite Ep. reflexivity.
+Qed.
+
+Lemma rrs_decode b lo c h L : closed b lo c h L -> sdec b c L ->
+  forall rs al pos e, rrs_at b L rs pos e -> Forall2 rrd rs al -> Forall arr_wf al -> e <= length b ->
+  exists ds, dec_rrs (length rs) b pos = Some (ds, e) /\ Forall2 (rr_rel xparts) al ds.
+Proof.
+  intros Hc Hsd. induction rs as [|r rest IH]; intros al pos e Hat Hd Hw He.
+  - inversion Hd; subst. simpl in Hat. subst. exists []. split; auto.
+  - inversion Hd as [|? a ? al' Hda Hd']; subst. inversion Hw; subst.
+    simpl in Hat. destruct Hat as [Hp [Hr [Hle Hat]]].
+    destruct (rr_decode b lo c h L r a Hc Hsd Hr Hda ltac:(auto) ltac:(lia)) as [d [Rd [_ Ed]]].
+    destruct (IH al' (lr_end r) e Hat Hd' ltac:(auto) He) as [ds [E F]].
+    exists (d :: ds). split; [|constructor; auto].
+    change (length (r :: rest)) with (S (length rest)). rewrite <- Hp, Ed, E. reflexivity.
+Qed.
+
+(* ---------------------------------------------------------------- questions *)
+
+Lemma qs_decode b lo c h L : closed b lo c h L -> sdec b c L ->
+  forall qs al pos e, qs_at b L qs pos e ->
+  Forall2 (fun q a => nc_name (lq_name q) = aq_name a /\ nc_cp (lq_name q) = aq_exact a /\
+                      lq_ty q = aq_ty a /\ lq_cl q = aq_cl a) qs al ->
+  Forall aq_wf al -> e <= length b ->
+  exists ds, dec_questions (length qs) b pos = Some (ds, e) /\ Forall2 q_rel al ds.
+Proof.
+  intros Hc Hsd. induction qs as [|q rest IH]; intros al pos e Hat Hd Hw He.
+  - inversion Hd; subst. simpl in Hat. subst. exists []. split; auto.
+  - inversion Hd as [|? a ? al' [D1 [D2 [D3 D4]]] Hd']; subst. inversion Hw as [|? ? [W1 [W2 [W3 W4]]] Hw']; subst.
+    simpl in Hat. destruct Hat as [Hp [[Ho Hf] [Hle Hat]]].
+    pose proof (proj1 Ho) as Hlt. pose proof (qs_le _ _ _ _ _ Hat) as Hqe.
+    rewrite <- D1 in W1, W2.
+    destruct (chunk_decode b lo c h L (lq_name q) Hc Hsd Ho ltac:(lia) W1 W2) as [n' [E [Hr _]]].
+    set (p := nc_end (lq_name q)) in *.
+    assert (F1 : get16 b p = Some (lq_ty q)).
+    { apply get16_be16; [|rewrite D3; auto].
+      rewrite (slice_sub b p (p + 4) p (p + 2) _ Hf) by lia.
+      replace (p - p) with 0 by lia. replace (p + 2 - p) with 2 by lia. reflexivity. }
+    assert (F2 : get16 b (p + 2) = Some (lq_cl q)).
+    { apply get16_be16; [|rewrite D4; auto].
+      rewrite (slice_sub b p (p + 4) (p + 2) (p + 2 + 2) _ Hf) by lia.
+      replace (p + 2 - p) with 2 by lia. replace (p + 2 + 2 - p) with 4 by lia. reflexivity. }
+    destruct (IH al' (p + 4) e Hat Hd' Hw' He) as [ds [E2 F]].
+    exists (mkDQ n' (nc_pos (lq_name q)) (lq_ty q) (lq_cl q) :: ds). split.
+    + change (length (q :: rest)) with (S (length rest)). cbn [dec_questions]. unfold dec_cname.
+      rewrite <- Hp, E.
+      replace (nc_pos (lq_name q) + (p - nc_pos (lq_name q))) with p by lia.
+      rewrite F1, F2, E2. reflexivity.
+    + constructor; auto. unfold q_rel. simpl. rewrite <- D1, <- D2. auto.
+Qed.
